@@ -106,6 +106,57 @@ def range_filter_unconditional(ctx, fi, rule='RANGE/filter-whatever-the-amount')
            'does not count them as deleted' % (norm_text(c)[:60], ' and '.join(('' if p else 'not ') + norm_text(t) for t, p in gs)), construct=cons, definite=True)
 
 
+def key_scenarios(ctx, fi, rule='KEY/scenarios'):
+  """"key signatures move by k modulo 12": the body of the loop over the key signatures, evaluated path by path for keys 0, 5, 11 and
+  amounts -13, -12, -1, 0, 1, 7, 12, 13, must leave (key + amount) mod 12 in the key field."""
+  from sa import pathval, scenario
+  fn = fi.node
+  lp = next((l for l in ast.walk(fn) if isinstance(l, ast.For) and norm_text(l.iter).endswith('.key_signatures') and isinstance(l.target, ast.Name)), None)
+  cons = 'transpose_note_sequence: key signatures move by the amount modulo 12'
+  if lp is None:
+    why = 'cannot classify: no loop over the key signatures in transpose_note_sequence'
+    ctx.ob(rule, fi, fn, False, why, construct=cons, unknown=why)
+    return
+  loc = '%s.key' % lp.target.id
+  try:
+    ps = pathval.paths(lp.body)
+  except pathval.PathError as e:
+    why = 'cannot classify: the body of the key-signature loop is not a straight-line block (%s)' % e
+    ctx.ob(rule, fi, lp, False, why, construct=cons, unknown=why)
+    return
+  for k in (0, 5, 11):
+    for a in (-13, -12, -1, 0, 1, 7, 12, 13):
+      env = {loc: ast.Constant(value=k), 'amount': ast.Constant(value=a)}
+      got, stuck = None, None
+      for conds, penv, _end in ps:
+        taken = True
+        for t, pol in conds:
+          v = scenario.fold_numeric(pathval.subst(U.expand_locals(fn, t, at=lp), env), {})
+          if v is None:
+            stuck, taken = norm_text(t), None
+            break
+          if bool(v) != pol:
+            taken = False
+            break
+        if taken is None:
+          break
+        if taken:
+          e = penv.get(loc)
+          got = k if e is None else scenario.fold_numeric(pathval.subst(U.expand_locals(fn, e, at=lp), env), {})
+          if got is None:
+            stuck = norm_text(e)
+          break
+      c2 = cons + ' (key %d, amount %d)' % (k, a)
+      if got is None:
+        why = 'cannot classify: %s cannot be evaluated for key %d and amount %d' % (stuck or 'the loop body', k, a)
+        ctx.ob(rule, fi, lp, False, why, construct=c2, unknown=why)
+      else:
+        want = (k + a) % 12
+        ok = got == want
+        ctx.ob(rule, fi, lp, ok, 'key %d moved by %d is %d' % (k, a, want) if ok else
+               'a key signature of key %d transposed by %d is stored as %s, not %d = (%d + %d) mod 12' % (k, a, got, want, k, a), construct=c2, definite=True)
+
+
 def operand(ctx, fi):
   fn = fi.node
   range_filter_unconditional(ctx, fi)
@@ -143,6 +194,7 @@ def operand(ctx, fi):
   ctx.ob('OPERAND/range', fi, keep, ok, 'kept iff min_allowed_pitch <= pitch + amount <= max_allowed_pitch (or drum)' if ok else
          'the range test is not "min_allowed_pitch <= pitch + amount <= max_allowed_pitch": %s' % norm_text(keep.test),
          construct='min_allowed_pitch <= pitch + amount <= max_allowed_pitch')
+  key_scenarios(ctx, fi)
   # key
   ks = [s for s in U.walk_stmts(fn) if isinstance(s, ast.Assign) and isinstance(s.targets[0], ast.Attribute) and s.targets[0].attr == 'key']
   ok = False
